@@ -53,6 +53,8 @@ def make_replayer():
                 'epigraph-constraints': ['assembly'],
                 'expansion-constraints': ['assembly'],
                 'relation-direction': ['assembly'],
+                'constraint-accepts': ['assembly'],
+                'constraint-refuses': ['assembly'],
                 'expansion-variable': ['assembly'],
                 'expansion-objective': ['assembly'],
                 'expansion-frame': ['assembly'],
@@ -110,6 +112,14 @@ def run(report, tier, seed):
             report.add(Ob(o['id'], o['kind'], o['status'], o['text'],
                           'modeling.py', by=o['by'], detail=o.get('detail'),
                           meta={'line': o['line']}))
+    except KeyError as e:
+        report.error('function under contract no longer exists: %s' % e)
+    try:
+        for o in relational_spec.constraint_init_obligations(
+                10000 if tier == 'quick' else 60000):
+            report.add(Ob(o['id'], o['kind'], o['status'], o['text'],
+                          'modeling.py line %s' % o['line'], by=o['by'],
+                          detail=o.get('detail'), meta={'line': o['line']}))
     except KeyError as e:
         report.error('function under contract no longer exists: %s' % e)
     report.replayer = make_replayer()
